@@ -300,6 +300,38 @@ func (g *gpath) litsBefore(i int, sameSection bool) []*r2Lit {
 
 // implies checks conj(lits) => want over all assignments of the atoms; returns a counterexample.
 func implies(lits []*r2Lit, want *formula) (bool, string) {
+	// only the literals connected to the wanted formula through shared atoms can matter (the others
+	// could at most make the path infeasible, which is never used as a proof)
+	rel := map[string]*formula{}
+	want.atoms(rel)
+	used := make([]bool, len(lits))
+	for changed := true; changed; {
+		changed = false
+		for i, l := range lits {
+			if used[i] {
+				continue
+			}
+			la := map[string]*formula{}
+			l.f.atoms(la)
+			for n := range la {
+				if _, ok := rel[n]; ok {
+					used[i] = true
+					changed = true
+					for m, f := range la {
+						rel[m] = f
+					}
+					break
+				}
+			}
+		}
+	}
+	var keep []*r2Lit
+	for i, l := range lits {
+		if used[i] {
+			keep = append(keep, l)
+		}
+	}
+	lits = keep
 	atoms := map[string]*formula{}
 	for _, l := range lits {
 		l.f.atoms(atoms)
@@ -528,4 +560,32 @@ func escapingLits(c *Ctx, d *core.FuncDecl) []*ast.FuncLit {
 	}
 	sort.Slice(lits, func(i, j int) bool { return lits[i].Pos() < lits[j].Pos() })
 	return lits
+}
+
+// timerLits returns the literals handed to time.AfterFunc inside a declaration (directly or through
+// a local bound once), in source order.
+func timerLits(c *Ctx, d *core.FuncDecl) []*ast.FuncLit {
+	ei := core.EscapesOf(c.Prog, d)
+	var out []*ast.FuncLit
+	ast.Inspect(d.Decl.Body, func(n ast.Node) bool {
+		call, ok := n.(*ast.CallExpr)
+		if !ok || len(call.Args) != 2 {
+			return true
+		}
+		sel, ok := unparen(call.Fun).(*ast.SelectorExpr)
+		if !ok || sel.Sel.Name != "AfterFunc" {
+			return true
+		}
+		if id, ok := unparen(sel.X).(*ast.Ident); !ok || id.Name != "time" {
+			return true
+		}
+		if l, ok := unparen(call.Args[1]).(*ast.FuncLit); ok {
+			out = append(out, l)
+		} else if id, ok := unparen(call.Args[1]).(*ast.Ident); ok {
+			out = append(out, ei.Bound[d.Pkg.TypesInfo.Uses[id]]...)
+		}
+		return true
+	})
+	sort.Slice(out, func(i, j int) bool { return out[i].Pos() < out[j].Pos() })
+	return out
 }
